@@ -364,6 +364,64 @@ func analyse(x *Exec) *RunResult {
 			cnt["close_checks"]++
 		}
 	}
+	if !aborted && x.sc.Family == "multi" {
+		// C14: Watchers with the same watch-set and no API activity of their own
+		// must deliver the same sequence, whatever their buffer size and pace.
+		sig := func(wr *WatcherRec) string {
+			var adds []string
+			for _, c := range x.H {
+				if c.W != wr.Idx {
+					continue
+				}
+				if c.Phase == "body" {
+					return ""
+				}
+				if c.Phase == "setup" && c.Kind == OpAdd && c.Class == "" {
+					adds = append(adds, cleanPath(c.Path))
+				}
+			}
+			sort.Strings(adds)
+			return strings.Join(adds, "|")
+		}
+		var ref *WatcherRec
+		for _, wr := range x.W {
+			if wr.W == nil || wr.Inst == nil || sig(wr) == "" || len(wr.Inst.Merged) > 0 || len(wr.Inst.Dropped) > 0 {
+				continue
+			}
+			if ref == nil {
+				ref = wr
+				continue
+			}
+			if sig(ref) != sig(wr) {
+				continue
+			}
+			cnt["stream_comparisons"]++
+			same := len(ref.D) == len(wr.D)
+			for i := 0; same && i < len(ref.D); i++ {
+				if ref.D[i].Name != wr.D[i].Name || ref.D[i].Op != wr.D[i].Op || ref.D[i].Str != wr.D[i].Str {
+					same = false
+				}
+			}
+			if !same {
+				add(Violation{Kind: "stream-divergence", Watcher: wr.Idx, Site: "multi", Detail: fmt.Sprintf("watchers %d (buffer %d) and %d (buffer %d) have the same watch-set but delivered %d vs %d events / different sequences", ref.Idx, ref.BufReq, wr.Idx, wr.BufReq, len(ref.D), len(wr.D))})
+			}
+		}
+		// a buffered Watcher absorbs up to its capacity with no consumer present
+		for _, wr := range x.W {
+			if wr.W == nil || wr.Idx >= len(x.sc.Cfg.Consumers) || x.sc.Cfg.Consumers[wr.Idx].Mode != "none" {
+				continue
+			}
+			for i := range wr.Snaps {
+				sn := &wr.Snaps[i]
+				if sn.Label == "predrain" && len(wr.D) <= wr.Cap && len(wr.E) == 0 && sn.Reader != "inotify.read" && sn.Reader != "" {
+					add(Violation{Kind: "absorb-failed", Watcher: wr.Idx, Site: sn.Reader, Detail: fmt.Sprintf("no consumer, %d events for a capacity of %d, yet the reader is parked on %q instead of waiting in read", len(wr.D), wr.Cap, sn.Reader)})
+				}
+				if sn.Label == "predrain" {
+					cnt["absorb_checks"]++
+				}
+			}
+		}
+	}
 	if !aborted {
 		// goroutines: every library task must have exited by the end of the run
 		for _, t := range x.S.Tasks() {
